@@ -45,6 +45,12 @@ theorem hdrSize_exact (hdr len : Nat) (hh : hdr ≤ 4611686018427387904) (h : le
   · omega
   · omega
 
+/-- **the tie of the sizing**: on the working tree the header of a block is measured by what was read of it.
+    Depends on the regenerated fact `Ndn.Gen.C11.blockSizedByReaderPos`; with the other sizing
+    (`EncodingLength()`, the pinned tree) this does not check — and it is false: see `corpus/C11/f11b-*.ops`. -/
+theorem hdrBytes_eq (u r2 : Bytes) (typ len : Nat) : hdrBytes u r2 typ len = u.length - r2.length := by
+  simp [hdrBytes, Ndn.Gen.C11.blockSizedByReaderPos]
+
 /-- anatomy of a well-formed block: header bytes (T and L as sent) in front of the value -/
 theorem wf_anatomy {b : Bytes} (h : WellFormedTlv b) :
     ∃ (typ : Nat) (hd1 hd2 v : Bytes), b = hd1 ++ (hd2 ++ v) ∧ decTL b = some (typ, hd2 ++ v) ∧
@@ -83,7 +89,7 @@ theorem parseLoop_block (b u' : Bytes) (hb : Blk b) :
     · rename_i h'; rw [e2] at h'; simp at h'
     · rename_i l' r2 h'
       rw [e2] at h'; simp at h'; obtain ⟨rfl, rfl⟩ := h'
-      simp only [hcap, if_false]
+      simp only [hcap, if_false, hdrBytes_eq]
       have hsz : (hd1 ++ (hd2 ++ v) ++ u').length - (v ++ u').length + v.length = (hd1 ++ (hd2 ++ v)).length := by
         simp; omega
       rw [hsz]
@@ -111,7 +117,7 @@ theorem parseLoop_partial (b u z : Bytes) (hb : Blk b) (hz : z ≠ []) (hu : u +
       have e2 := decTL_append h' z
       rw [← hr1, h2] at e2
       simp at e2; obtain ⟨rfl, hv⟩ := e2
-      simp only [hcap, if_false]
+      simp only [hcap, if_false, hdrBytes_eq]
       have hvl : v.length = r2.length + z.length := by rw [hv]; simp
       have hr2 : r2.length < u.length := by
         have := decTL_rest_lt h; have := decTL_rest_lt h'; omega
